@@ -282,6 +282,42 @@ func basePathShape(fn *ssa.Function) string {
 			}
 			return
 		}
+		// a helper of the package that computes the value: its returned values
+		// are the sources (a zero value returned together with a non-nil error is
+		// none: the caller gives up on that path)
+		var hc *ssa.Call
+		idx := 0
+		if ex, ok := v.(*ssa.Extract); ok {
+			hc, _ = ex.Tuple.(*ssa.Call)
+			idx = ex.Index
+		} else if c, ok := v.(*ssa.Call); ok {
+			hc = c
+		}
+		if hc != nil {
+			if g := hc.Call.StaticCallee(); g != nil && g.Pkg == fn.Pkg && len(g.Blocks) > 0 && g.Signature.Recv() == nil {
+				for _, b := range g.Blocks {
+					ret, ok := b.Instrs[len(b.Instrs)-1].(*ssa.Return)
+					if !ok || idx >= len(ret.Results) {
+						continue
+					}
+					if c, ok := ret.Results[idx].(*ssa.Const); ok && c.Value != nil && c.Value.ExactString() == `""` {
+						withErr := false
+						for j, r := range ret.Results {
+							if j != idx && isErrorT(r.Type()) {
+								if rc, isC := r.(*ssa.Const); !isC || !rc.IsNil() {
+									withErr = true
+								}
+							}
+						}
+						if withErr {
+							continue
+						}
+					}
+					walk(ret.Results[idx], d+1)
+				}
+				return
+			}
+		}
 		sources = append(sources, v)
 	}
 	walk(call.Call.Args[0], 0)
